@@ -162,21 +162,6 @@ pub(crate) fn key(ing: u32, i: u32) -> DatabaseKeyIndex {
     DatabaseKeyIndex::new(IngredientIndex::new(ing), unsafe { Id::from_index(i) })
 }
 
-/// P4 (DESIGN.md 2.2): under `cfg(kani)` the crate's `FxHasher` alias is this constant hasher.
-/// Any function is a valid hash function for a hash collection (it only has to agree with `Eq`),
-/// so the real hashbrown / indexmap code runs unchanged, but every probe sequence starts at a
-/// concrete position, which is what CBMC needs.
-#[derive(Default, Clone, Copy)]
-pub(crate) struct ConstHasher;
-impl std::hash::Hasher for ConstHasher {
-    #[inline]
-    fn write(&mut self, _: &[u8]) {}
-    #[inline]
-    fn finish(&self) -> u64 {
-        0
-    }
-}
-
 /// Stand-in for `crate::sync::max_parallelism` (`std::thread::available_parallelism` is a syscall):
 /// one shard / one parallel slot.  Used with `#[kani::stub]` only.
 pub(crate) fn one_core() -> usize {
